@@ -1243,9 +1243,10 @@ fn execute_match(
                     converted_base,
                 },
         } => {
+            // the buyer receives the approver-supplied base: use that denom's marker type
             response = add_transfer(
                 response,
-                is_base_restricted_marker.to_owned(),
+                is_restricted_marker(&deps.querier, converted_base.denom.clone()),
                 execute_size.into(),
                 converted_base.to_owned().denom,
                 bid_order.owner.to_owned(),
